@@ -508,7 +508,18 @@ impl<'a, RK: RadioKind, C: Probe> Driver<'a, RK, C> {
 
         // ---- (d) after a failed or timed-out operation --------------------------------------------
         if call.is_operation() && res.failed() && !refused {
-            let documented_exception = before == RadioMode::Receive(RxMode::Continuous) && matches!(call, Call::CompleteRx | Call::Rx);
+            // the driver-documented exception: a reception problem reported while the interrupt is
+            // processed in continuous receive (CRC / header error, or the bus failing in that step or
+            // before the reception is under way) leaves the decision to the caller. It does not cover
+            // a failure while the packet is fetched or while the interrupt is waited for
+            let phase_now = match (fault_kind, fault_now) {
+                (Some(k), true) => {
+                    let started_before_fault = if call == Call::CompleteRx { true } else { sh.chip.op_starts()[o0..].iter().any(|o| Some(o.txn) < sh.fault_hit) };
+                    Some(fault_phase(self.var, k, &sh.fault_mosi, started_before_fault))
+                }
+                _ => None,
+            };
+            let documented_exception = before == RadioMode::Receive(RxMode::Continuous) && matches!(call, Call::CompleteRx | Call::Rx) && !matches!(phase_now, Some("fetch") | Some("irq-wait"));
             self.col.event("failed_operations");
             if documented_exception {
                 self.col.event("failed_operations_in_continuous_rx(exception)");
